@@ -4,7 +4,9 @@ import CallbagModel.Inv.Concat
 import CallbagModel.Inv.Flatten
 import CallbagModel.Inv.ForEach
 import CallbagModel.Inv.FromIter
+import CallbagModel.Inv.Fuse
 import CallbagModel.Inv.Merge
+import CallbagModel.Inv.Readable
 import CallbagModel.Inv.Relay
 import CallbagModel.Inv.Share
 import CallbagModel.Inv.ShareWeak
@@ -61,6 +63,67 @@ theorem C02_flatten {α : Type} :
     ∀ s, SReach (Flatten.machine α) s → SafeFor 2 s :=
   fun s hs => safeFor_of_basicSafe _ s hs (Flatten.flatten_basicSafe s hs) 2 (by decide)
 
+theorem C02_pipe_of_two_relays {σ₁ σ₂ α β γ : Type} (k₁ : Relay.Kind σ₁ α β) (k₂ : Relay.Kind σ₂ β γ)
+    (h₁ : k₁.slotted = false → ∀ s a, (k₁.xfer s a).2 ≠ none) (h₂ : k₂.slotted = false → ∀ s b, (k₂.xfer s b).2 ≠ none) :
+    ∀ s, SReach (compose (Relay.machine k₁) (Relay.machine k₂)) s → SafeFor 2 s :=
+  fun s hs => safeFor_of_basicSafe _ s hs (Fuse.compose_relay_basicSafe k₁ k₂ h₁ h₂ s hs) 2 (by decide)
+
+
+/-! ## What the monitor verdict means, in terms of the trace alone
+
+`SafeFor 2` is a statement about the ghost monitor. The theorem below reads it back as a statement about positions in the
+boundary trace `s.tr` (newest first; `chronAt tr p` is the `p`-th event in chronological order) that does not mention the
+monitor — for EVERY machine, so that the monitor itself is not part of what has to be believed. -/
+
+/-- C02, readable form: after a terminal message to a sink nothing else is delivered to it. All three of C01, C02, C03 are needed: the monitor files a delivery under the property of the phase the sink is in (`Rd.terminalFinal_needs_C01`, `Rd.terminalFinal_needs_C03` are kernel-checked counterexamples with only one of them missing). -/
+theorem C02_readable {St Loc α β : Type} (M : Machine St Loc α β) (s : Sys St Loc α β) (hs : SReach M s)
+    (h1 : SafeFor 1 s) (h2 : SafeFor 2 s) (h3 : SafeFor 3 s) (k : Nat) : TerminalFinal k s.tr :=
+  terminalFinal_of_clean hs (fun v hv => ⟨h1.1 v (by unfold G.viols; exact List.mem_append_right _ hv), h2.1 v (by unfold G.viols; exact List.mem_append_right _ hv), h3.1 v (by unfold G.viols; exact List.mem_append_right _ hv)⟩) k
+
+theorem C02_map_readable {α β : Type} (f : α → β) :
+    ∀ s, SReach (Relay.machine (Relay.map f)) s → ∀ k, TerminalFinal k s.tr :=
+  fun s hs k => (readable_of_noViols hs (Relay.map_basicSafe f s hs).1 k).2.1
+
+theorem C02_filter_readable {α : Type} (p : α → Bool) :
+    ∀ s, SReach (Relay.machine (Relay.filter p)) s → ∀ k, TerminalFinal k s.tr :=
+  fun s hs k => (readable_of_noViols hs (Relay.filter_basicSafe p s hs).1 k).2.1
+
+theorem C02_scan_readable {α β : Type} (r : β → α → β) (seed : β) :
+    ∀ s, SReach (Relay.machine (Relay.scan r seed)) s → ∀ k, TerminalFinal k s.tr :=
+  fun s hs k => (readable_of_noViols hs (Relay.scan_basicSafe r seed s hs).1 k).2.1
+
+theorem C02_skip_readable {α : Type} (n : Nat) :
+    ∀ s, SReach (Relay.machine (Relay.skip (α := α) n)) s → ∀ k, TerminalFinal k s.tr :=
+  fun s hs k => (readable_of_noViols hs (Relay.skip_basicSafe n s hs).1 k).2.1
+
+theorem C02_take_readable {α : Type} (max : Nat) :
+    ∀ s, SReach (Take.machine α max) s → ∀ k, TerminalFinal k s.tr :=
+  fun s hs k => (readable_of_noViols hs (Take.take_basicSafe max s hs).1 k).2.1
+
+theorem C02_from_iter_readable {ι α α' : Type} (next : ι → Option (α × ι)) (it0 : ι) :
+    ∀ s, SReach (FromIter.machine α' next it0) s → ∀ k, TerminalFinal k s.tr :=
+  fun s hs k => (readable_of_noViols hs (FromIter.fromIter_basicSafe next it0 s hs).1 k).2.1
+
+theorem C02_for_each_readable {α : Type} :
+    ∀ s, SReach (ForEach.machine α) s → ∀ k, TerminalFinal k s.tr :=
+  fun s hs k => (readable_of_noViols hs (ForEach.forEach_basicSafe s hs).1 k).2.1
+
+theorem C02_concat_readable {α : Type} (n : Nat) (hn : 0 < n) :
+    ∀ s, SReach (Concat.machine α n) s → ∀ k, TerminalFinal k s.tr :=
+  fun s hs k => (readable_of_noViols hs (Concat.concat_basicSafe n hn s hs).1 k).2.1
+
+theorem C02_merge_readable {α : Type} (n : Nat) :
+    ∀ s, SReach (Merge.machine α n) s → ∀ k, TerminalFinal k s.tr :=
+  fun s hs k => (readable_of_noViols hs (Merge.merge_basicSafe n s hs).1 k).2.1
+
+theorem C02_flatten_readable {α : Type} :
+    ∀ s, SReach (Flatten.machine α) s → ∀ k, TerminalFinal k s.tr :=
+  fun s hs k => (readable_of_noViols hs (Flatten.flatten_basicSafe s hs).1 k).2.1
+
+theorem C02_pipe_of_two_relays_readable {σ₁ σ₂ α β γ : Type} (k₁ : Relay.Kind σ₁ α β) (k₂ : Relay.Kind σ₂ β γ)
+    (h₁ : k₁.slotted = false → ∀ s a, (k₁.xfer s a).2 ≠ none) (h₂ : k₂.slotted = false → ∀ s b, (k₂.xfer s b).2 ≠ none) :
+    ∀ s, SReach (compose (Relay.machine k₁) (Relay.machine k₂)) s → ∀ k, TerminalFinal k s.tr :=
+  fun s hs k => (readable_of_noViols hs (Fuse.compose_relay_basicSafe k₁ k₂ h₁ h₂ s hs).1 k).2.1
 /-- `combine!`: the full phase-level safety statement is false (known findings KF2, KF3: messages to members that are not
 live, a C04 matter); what is proved is that those are the ONLY phase-level violations, hence C02 holds in full. -/
 theorem C02_combine {α : Type} (n : Nat) :
